@@ -188,6 +188,8 @@ class C14(object):
                         cut = rnd.choice([0, 1, 500, 40000, int(data[rnd.randrange(ns), rnd.randrange(nf)])])
                         if rnd.random() < 0.3:
                             cut = cut + rnd.choice([0.5, 0.5, 0.75, 0.25, 0.9])      # thresholds such as mean + 3 sigma are not whole numbers
+                            if int(cut) + 1 < 65535:
+                                data[rnd.randrange(ns), rnd.randrange(nf)] = int(cut) + 1  # a pixel just above the threshold
                         if data.dtype == np.float32 and rnd.random() < 0.25:
                             # dead pixels of processed data: not-a-number is not above any cut
                             for _ in range(rnd.randint(1, 3)):
